@@ -24,3 +24,10 @@ CHECKS["C12"] = dict(
     text="CrossHair explores every path of the real filter_ignore_block on texts assembled from START/END markers and free chunks (all shapes up to 4 segments quick / 5 thorough, chunk characters symbolic) and of extract_reuse_info on every sequence of 4 (quick) / 5 (thorough) tokens from {start, end, licence, copyright, contributor, text, newline}; 'Confirmed over all paths' means the equality with the reference holds for every value of the symbolic characters / token kinds inside that bound.",
     note="Trusted: CrossHair's str model, z3, the 12-line reference scanner. Each condition has a reachability twin (post: False) that must be violated. Licence parsing runs natively on per-path concrete strings. Outside: more segments than the bound; markers following a tag on the same line.",
 )
+
+CHECKS["C16"] = dict(
+    engine="XH",
+    technique="symbolic execution (CrossHair + z3): solver-driven exploration of every TOML value shape through the real from_dict/validators, and of every fault choice through the real error funnels",
+    text="CrossHair explores all paths of (a) the real ReuseTOML.from_dict with each key in turn taking every TOML type (nesting <= 2), (b) the real ClickObj.project with Project.from_directory raising each documented exception, (c) the real ProjectReport/ProjectSubsetReport.generate with FileReport.generate raising any of 11 exception classes per file; the postcondition is 'returns or raises a parse error naming the file' / 'click.UsageError' / 'a read-error entry and the run continues'. Counterexamples are replayed through ReuseTOML.from_toml on the tomlkit serialisation.",
+    note="After the solver has chosen a shape the document is concrete, so the solver's part is the exhaustive, feasibility-checked exploration of the shape space (stated bound: one malformed key at a time, nesting <= 2). Outside: third-party parsers on raw bytes. Two known findings (annotations not an array of tables; unhashable array item) are carved out by predicate and re-established from their witnesses on every run.",
+)
